@@ -288,19 +288,20 @@ func generateRegexMatch(w io.Writer, lexerName, name, pattern string) error {
 			fmt.Fprintf(w, "return -1\n")
 
 		case syntax.OpAnyCharNotNL: // matches any character except newline
+			fmt.Fprintf(w, "if len(s) <= p { return -1 }\n")
 			fmt.Fprintf(w, "var (rn rune; n int)\n")
 			decodeRune(w, "p", "rn", "n")
-			fmt.Fprintf(w, "if len(s) <= p+n || rn == '\\n' { return -1 }\n")
+			fmt.Fprintf(w, "if rn == '\\n' { return -1 }\n")
 			fmt.Fprintf(w, "return p+n\n")
 
 		case syntax.OpAnyChar: // matches any character
+			fmt.Fprintf(w, "if len(s) <= p { return -1 }\n")
 			fmt.Fprintf(w, "var n int\n")
 			fmt.Fprintf(w, "if s[p] < utf8.RuneSelf {\n")
 			fmt.Fprintf(w, "  n = 1\n")
 			fmt.Fprintf(w, "} else {\n")
 			fmt.Fprintf(w, "  _, n = utf8.DecodeRuneInString(s[p:])\n")
 			fmt.Fprintf(w, "}\n")
-			fmt.Fprintf(w, "if len(s) <= p+n { return -1 }\n")
 			fmt.Fprintf(w, "return p+n\n")
 
 		case syntax.OpWordBoundary, syntax.OpNoWordBoundary,
